@@ -34,7 +34,7 @@ def _c03_project_keep_wont(op, a):
     return a
 
 import re as _re
-_C18_IMPL = _re.compile(r" used=(\d+)$")
+_C18_IMPL = _re.compile(r" used=(\d+) sw=(\d+)$")
 _C18_MODEL = _re.compile(r" cost=(\d+) mwp=([01]) w=(\d+)$")
 
 def c18_project(op, a):
@@ -48,25 +48,29 @@ def c18_joint(op, impl, model, stats):
     proved bound `allocDyn <= w * (len + 1)` (theorem dyn_alloc_bound, for schemas with mwp=1).
     - model side, re-checked on every case: cost <= w * (len + 1) whenever mwp = 1 (an instance of the theorem
       evaluated by the driver: a failure means the driver and the proved definitions have come apart);
-    - successful decode: used <= 4096 + 512 * cost  (a serde_json Value is 32 bytes, a BTreeMap leaf ~632 bytes for
+    - successful decode: used <= 4096 + S + 512 * cost, S = 768*sw + 64*sw^2 a constant of the SCHEMA (sw = its node count;
+      struct / variant levels cost a map node each and the enum arms clone the variant's sub-schema)  (a serde_json Value is 32 bytes, a BTreeMap leaf ~632 bytes for
       >= 3 counted units, Vec growth at most doubles; the constant is schema-independent);
     - failed decode: used <= 4096 + 512 * cost + 512 * len (the model does not count what a failing sub-decode
       had already allocated, e.g. a map key before its value fails; those bytes are input bytes)."""
     if not op.startswith("dynde "): return None
     mi, mm = _C18_IMPL.search(impl), _C18_MODEL.search(model)
     if not mi or not mm: return None
-    used, cost, mwp, w = int(mi.group(1)), int(mm.group(1)), int(mm.group(2)), int(mm.group(3))
+    used, sw, cost, mwp, w = int(mi.group(1)), int(mi.group(2)), int(mm.group(1)), int(mm.group(2)), int(mm.group(3))
+    # schema-only constant: one map node and the field names per struct / variant level, and the sub-schema
+    # clones of the enum arms (quadratic for nested enums); independent of the input
+    schema_const = 768 * sw + 64 * sw * sw
     hexarg = op.rsplit(" ", 1)[-1]
     n = (len(hexarg) - 1) // 2 if hexarg.startswith("x") else 0
     stats["dynde_cases"] = stats.get("dynde_cases", 0) + 1
-    stats["max_used_per_cost_unit"] = max(stats.get("max_used_per_cost_unit", 0), round((max(used - 4096, 0)) / (cost + 1), 1))
+    stats["max_used_per_cost_unit"] = max(stats.get("max_used_per_cost_unit", 0), round((max(used - 4096 - schema_const, 0)) / (cost + 1), 1))
     stats["max_cost_over_bound_pct"] = max(stats.get("max_cost_over_bound_pct", 0), round(100.0 * cost / (w * (n + 1)), 1) if mwp else 0)
     if mwp:
         stats["mwp_cases"] = stats.get("mwp_cases", 0) + 1
         if cost > w * (n + 1):
             return "model allocation count %d exceeds the proved bound w*(len+1) = %d*(%d+1)" % (cost, w, n)
     ok = impl.startswith("ok ")
-    limit = 4096 + 512 * cost + (0 if ok else 512 * n)
+    limit = 4096 + schema_const + 512 * cost + (0 if ok else 512 * n)
     if used > limit:
         cls = "finding:dyn-seq-zero-width-alloc " if not mwp else ""
         return "%sdecoding %d input bytes allocated %d bytes; model count %d (limit %d)" % (cls, n, used, cost, limit)
